@@ -211,6 +211,8 @@ Example C01_program_nonvacuous :
             SPrintln (Some (RCall "sq" [RCall "round" [RVar "total"]])); SCall "down" [RCall "sq" [RLit (LInt 1)]] false;
             SIf (RExpr (EBin BGt (ECall "sq" [RLit (LInt 3)]) (ELit (LInt 5)))) (SPrintln (Some (RLit (LInt 1)))) (Some (SPrintln (Some (RLit (LInt 0)))));
             SIf (RCall "sq" [RLit (LInt 0)]) (SPrintln (Some (RLit (LInt 1)))) None;
+            SAssign "w" (RLit (LInt 0));
+            SRepeat (LWhile (RExpr (EBin BLt (ECall "sq" [RVar "w"]) (ELit (LInt 5))))) (SBlock [SAssign "w" (RExpr (EBin BAdd (EVar "w") (ELit (LInt 1)))); SPrintln (Some (RVar "w"))]);
             SAssign "r" (RCall "round" [RVar "total"]); SPrintln (Some (RCall "floor" [RExpr (EBin BDiv (EVar "total") (ELit (LInt 2)))]));
             SReg R_HUE (RCall "sq" [RVar "total"]); SPrint (Some (RCall "sq" [RExpr (EBin BSub (EVar "total") (ELit (LInt 7)))]));
             SPrintln (Some (RVar "total"))] in
